@@ -10,6 +10,10 @@
 -/
 import ASV.Proofs.ProtoRules
 import ASV.Proofs.Components
+import ASV.Proofs.ProtoExtend
+import ASV.Proofs.ProtoRing
+import ASV.Proofs.ProtoRingSep
+import ASV.Proofs.ProtoRingFinal
 namespace ASV.C03
 open ASV ASV.Rules ASV.Proto ASV.Chains ASV.ChainSweep
 
@@ -138,6 +142,207 @@ theorem protoclusters_of_rule_linear (r : Rec) (hlin : r.circular = false) (rule
   simp only [clustersOfRule, hfind, bind, Except.bind]
   exact hpcs
 
+/-! ### circular records
+
+  `InnerArc L d A B`: the arc `[A, B)` of the ring of length `L` keeps the distance `d` from the origin
+  on both sides (`d ≤ A`, `B + d ≤ L`) and spans at most half of the ring (`2·(B − A) ≤ L`).
+  `GeneIn L A B l`: `GeneOK` and the gene lies in `[A, B)`.  Under these hypotheses no window wraps, the
+  cap of `_extend_area_location` does not bite and `connect_locations` never goes over the origin.
+  The full statements (any position on the ring, origin-spanning anchors, chains closing over the origin
+  through `merge_over_origin`) are `def`s below; what is missing for them is said in design/C03.md. -/
+
+/-- the full ring statement (not proved): on every circular record the cores after
+    `clustersOfRule` + `mergeOverOrigin` correspond to the maximal chains of the ring relation -/
+def CoresAreChainsRing : Prop :=
+  ∀ (r : Rec) (rules : List RuleM) (rule : RuleM) (anchors : List Gene), r.circular = true → rule ∈ rules →
+    0 ≤ rule.cutoff → 0 ≤ rule.nbhd →
+    (∀ g ∈ r.genes, g.loc.parts ≠ [] ∧ g.loc.Inside r.len) →
+    ∃ found merged groups, clustersOfRule r rule anchors = .ok found ∧ Proto.mergeOverOrigin r rules found = .ok merged ∧
+      IsChainPartition (fun a b => nearB r.len rule.cutoff a b = true)
+        ((r.genes.filter fun g => anchors.contains g.id).map (·.loc)) groups ∧
+      Paired (fun (pc : PC) g => ∀ m ∈ g, ∀ i, (spanLoc r.len m).mem i = true → pc.core.mem i = true) merged groups
+
+/-- **Cores are the maximal chains (circular record, anchors in an inner arc)** — `_partial`: proved
+    for anchoring genes inside an `InnerArc` for the rule's cutoff.  The chain relation is the *ring*
+    relation `nearB r.len cutoff` (shorter way round); the conclusion is that of `cores_are_chains_linear`. -/
+theorem cores_are_chains_ring_partial (r : Rec) (hcirc : r.circular = true) (c A B : Int)
+    (harc : InnerArc r.len c A B) (hA : 0 ≤ A) (anchors : List Loc) (hne : anchors ≠ [])
+    (hok : ∀ l ∈ anchors, GeneIn r.len A B l) :
+    ∃ (groups : List (List Loc)) (cores : List Loc),
+      findCores r c anchors = .ok cores ∧
+      IsChainPartition (fun a b => nearB r.len c a b = true) anchors groups ∧
+      Paired (fun core g => ∃ p, core = Loc.simple p ∧
+        (∀ m ∈ g, p.lo ≤ m.start ∧ m.end ≤ p.hi) ∧ (∃ m ∈ g, m.start = p.lo) ∧ (∃ m ∈ g, m.end = p.hi))
+        cores groups := by
+  have hc := harc.dpos
+  have hB : B ≤ r.len := by have := harc.right; omega
+  obtain ⟨sorted, cores, hperm, hsorted, hfind, hmap, hsimple⟩ :=
+    findCores_arc r c A B hc hA hB (flatOps_ring r hcirc c A B harc) anchors hne hok
+  obtain ⟨hpart, hinv⟩ := sweep_is_chain_partition_of (fun a b => nearB r.len c a b = true) c hc anchors sorted
+    hperm hsorted (fun l hl => (hok l hl).ok.start_lt_end)
+    (fun a ha b hb => nearB_ring_inner_iff r.len c A B harc a b (hok a ha) (hok b hb))
+  refine ⟨(sweep Loc.start Loc.end c sorted).map Grp.members, cores, hfind, hpart, ?_⟩
+  refine Paired.map_right Grp.members ?_
+  refine (paired_of_map_eq cores (sweep Loc.start Loc.end c sorted) hmap hsimple hinv).imp ?_
+  rintro core g ⟨hiv, ⟨p, rfl⟩, hg⟩
+  simp only [ivOf, Loc.start, Loc.end, Prod.mk.injEq] at hiv
+  refine ⟨p, rfl, ?_, ?_, ?_⟩
+  · intro m hm
+    have h1 := hg.loMin m hm
+    have h2 := hg.hiMax m hm
+    omega
+  · obtain ⟨m, hm, e⟩ := hg.loAtt
+    exact ⟨m, hm, by omega⟩
+  · obtain ⟨m, hm, e⟩ := hg.hiAtt
+    exact ⟨m, hm, by omega⟩
+
+/-- **The protoclusters of a rule (circular record, anchors in an inner arc)** — `_partial`: the arc keeps
+    both the cutoff and the neighbourhood away from the origin.  Protoclusters ↔ maximal chains of the
+    ring relation, core = smallest span, location = core widened by the neighbourhood on both sides. -/
+theorem protoclusters_of_rule_ring_partial (r : Rec) (hcirc : r.circular = true) (rule : RuleM) (A B : Int)
+    (harcC : InnerArc r.len rule.cutoff A B) (harcN : InnerArc r.len rule.nbhd A B) (hA : 0 ≤ A)
+    (anchors : List Gene) (hne : (r.genes.filter fun g => anchors.contains g.id) ≠ [])
+    (hok : ∀ g ∈ r.genes, anchors.contains g.id = true → GeneIn r.len A B g.loc) :
+    ∃ (groups : List (List Loc)) (pcs : List PC),
+      clustersOfRule r rule anchors = .ok pcs ∧
+      IsChainPartition (fun a b => nearB r.len rule.cutoff a b = true)
+        ((r.genes.filter fun g => anchors.contains g.id).map (·.loc)) groups ∧
+      Paired (fun pc g => pc.rule = rule.name ∧ ∃ p, pc.core = Loc.simple p ∧
+        (∀ m ∈ g, p.lo ≤ m.start ∧ m.end ≤ p.hi) ∧ (∃ m ∈ g, m.start = p.lo) ∧ (∃ m ∈ g, m.end = p.hi) ∧
+        pc.loc = Loc.simple ⟨p.lo - rule.nbhd, p.hi + rule.nbhd, .fwd⟩)
+        pcs groups := by
+  have hok' : ∀ l ∈ (r.genes.filter fun g => anchors.contains g.id).map (·.loc), GeneIn r.len A B l := by
+    intro l hl
+    obtain ⟨g, hg, rfl⟩ := List.mem_map.1 hl
+    simp only [List.mem_filter] at hg
+    exact hok g hg.1 hg.2
+  obtain ⟨groups, cores, hfind, hpart, hpaired⟩ :=
+    cores_are_chains_ring_partial r hcirc rule.cutoff A B harcC hA _ (by simpa using hne) hok'
+  have hgroup : ∀ g ∈ groups, ∀ m ∈ g, GeneIn r.len A B m := by
+    intro g hg m hm
+    apply hok'
+    rw [← hpart.perm.mem_iff]
+    simp only [List.mem_flatten]
+    exact ⟨g, hg, hm⟩
+  have hn := harcN.dpos; have hnl := harcN.left; have hnr := harcN.right
+  obtain ⟨pcs, hpcs, hp2⟩ := mapM_paired
+    (fun core => do
+      let surrounds ← extendArea r core rule.nbhd true
+      mkPC rule.name core surrounds)
+    (S := fun (pc : PC) (g : List Loc) => pc.rule = rule.name ∧ ∃ p, pc.core = Loc.simple p ∧
+        (∀ m ∈ g, p.lo ≤ m.start ∧ m.end ≤ p.hi) ∧ (∃ m ∈ g, m.start = p.lo) ∧ (∃ m ∈ g, m.end = p.hi) ∧
+        pc.loc = Loc.simple ⟨p.lo - rule.nbhd, p.hi + rule.nbhd, .fwd⟩)
+    (by
+      rintro core g ⟨⟨p, rfl, hcov, ⟨m1, hm1, e1⟩, ⟨m2, hm2, e2⟩⟩, hg⟩
+      have a1 := (hgroup g hg m1 hm1).lo
+      have a2 := (hgroup g hg m1 hm1).ok.start_lt_end
+      have a3 := (hgroup g hg m2 hm2).hi
+      have a4 := (hcov m1 hm1).2
+      have e3 : max 0 (p.lo - rule.nbhd) = p.lo - rule.nbhd := by omega
+      have e4 : min (p.hi + rule.nbhd) r.len = p.hi + rule.nbhd := by omega
+      refine ⟨⟨rule.name, .simple p, .simple ⟨p.lo - rule.nbhd, p.hi + rule.nbhd, .fwd⟩⟩, ?_,
+        rfl, p, rfl, hcov, ⟨m1, hm1, e1⟩, ⟨m2, hm2, e2⟩, rfl⟩
+      simp only [extendArea_ring_inner r hcirc A B rule.nbhd harcN p (by omega) (by omega) (by omega) true, e3, e4,
+        bind, Except.bind]
+      exact mkPC_simple _ _ _ (by simp only; omega) (by simp only; omega))
+    hpaired.with_mem_right
+  refine ⟨groups, pcs, ?_, hpart, hp2⟩
+  simp only [clustersOfRule, hfind, bind, Except.bind]
+  exact hpcs
+
+/-- **Chains are never split, on any circular record** (`_partial` with respect to `CoresAreChainsRing`:
+    this is its "maximal" half, without any restriction on positions, origin-spanning anchors or chain
+    lengths; the "each core is one chain and the smallest span of it" half is proved only under
+    `InnerArc`, see above).  For every circular record whose anchoring genes are valid ring locations
+    (`RingIn`: exons non-empty and inside the record, origin-bridging genes splittable), whenever the
+    protoclusters of a rule have been formed and merged over the origin:
+      * every resulting core is a well-formed area of that rule;
+      * every anchoring gene of the rule lies inside the core of one of them;
+      * any two of them are further apart than the cutoff, measured the shorter way round the ring —
+        so genes in different protoclusters are never within the cutoff of each other, also across the
+        origin. -/
+theorem ring_chains_not_split_partial (r : Rec) (hcirc : r.circular = true) (hL : 0 < r.len) (rules : List RuleM)
+    (hrules : ∀ name rule, findRule rules name = .ok rule → 0 ≤ rule.cutoff ∧ rule.cutoff ≤ r.len)
+    (rule : RuleM) (hfind : findRule rules rule.name = .ok rule) (anchors : List Gene)
+    (hin : ∀ g ∈ r.genes, anchors.contains g.id = true → RingIn r.len g.loc)
+    (found merged : List PC) (hfound : clustersOfRule r rule anchors = .ok found)
+    (hmerged : Proto.mergeOverOrigin r rules found = .ok merged) :
+    (∀ q ∈ merged, q.rule = rule.name ∧ RingArea r.len q.core) ∧
+    (∀ g ∈ r.genes, anchors.contains g.id = true → ∃ q ∈ merged, Covers q.core g.loc) ∧
+    merged.Pairwise (fun p q => FarApart r.len rule.cutoff p.core q.core) := by
+  replace hfound : (findCores r rule.cutoff ((r.genes.filter fun g => anchors.contains g.id).map (·.loc)) >>= fun cores =>
+      cores.mapM (fun core => do
+        let surrounds ← extendArea r core rule.nbhd true
+        mkPC rule.name core surrounds)) = .ok found := hfound
+  cases hc : findCores r rule.cutoff ((r.genes.filter fun g => anchors.contains g.id).map (·.loc)) with
+  | error e => rw [hc] at hfound; cases hfound
+  | ok cores =>
+    rw [hc] at hfound
+    replace hfound : cores.mapM (fun core => do
+        let surrounds ← extendArea r core rule.nbhd true
+        mkPC rule.name core surrounds) = .ok found := hfound
+    obtain ⟨c1, c2⟩ := findCores_ring_cover r hcirc hL rule.cutoff _ cores
+      (by intro a ha
+          obtain ⟨g, hg, rfl⟩ := List.mem_map.1 ha
+          simp only [List.mem_filter] at hg
+          exact hin g hg.1 hg.2) hc
+    have hpc : ∀ pc ∈ found, pc.rule = rule.name ∧ pc.core ∈ cores := by
+      intro pc hpc
+      obtain ⟨core, hcore, hf⟩ := mapM_ok_mem _ cores found hfound pc hpc
+      cases he : extendArea r core rule.nbhd true with
+      | error e => simp [he, bind, Except.bind] at hf
+      | ok s =>
+        simp only [he, bind, Except.bind] at hf
+        have := mkPC_ok hf
+        subst this
+        exact ⟨rfl, hcore⟩
+    have hcore : ∀ core ∈ cores, ∃ pc ∈ found, pc.core = core := by
+      intro core hcore
+      obtain ⟨pc, hpcm, hf⟩ := mapM_ok_mem' _ cores found hfound core hcore
+      cases he : extendArea r core rule.nbhd true with
+      | error e => simp [he, bind, Except.bind] at hf
+      | ok s =>
+        simp only [he, bind, Except.bind] at hf
+        have := mkPC_ok hf
+        subst this
+        exact ⟨_, hpcm, rfl⟩
+    obtain ⟨m1, m2, m3⟩ := mergeOverOrigin_ring r hcirc hL rules hrules found merged
+      (fun pc hpcm => c1 _ (hpc pc hpcm).2) hmerged
+    have hrule : ∀ q ∈ merged, q.rule = rule.name := by
+      intro q hq
+      obtain ⟨_, pc, hpcm, e⟩ := m1 q hq
+      rw [e]; exact (hpc pc hpcm).1
+    refine ⟨fun q hq => ⟨hrule q hq, (m1 q hq).1⟩, ?_, ?_⟩
+    · intro g hg hanc
+      obtain ⟨k, hk, hcov⟩ := c2 g.loc (List.mem_map.2 ⟨g, List.mem_filter.2 ⟨hg, hanc⟩, rfl⟩)
+      obtain ⟨pc, hpcm, rfl⟩ := hcore k hk
+      obtain ⟨q, hq, _, hcq⟩ := m3 pc hpcm
+      exact ⟨q, hq, hcq.trans hcov⟩
+    · refine List.Pairwise.imp_of_mem ?_ m2
+      intro p q hp hq hpq
+      exact hpq ((hrule p hp).trans (hrule q hq).symm) rule (by rw [hrule p hp]; exact hfind)
+
+/-- **The reported protoclusters on any circular record** (end to end, through extenders, superiors and
+    both merges): whenever `detect_protoclusters_and_signatures` returns on a circular record whose genes
+    are valid ring locations, every reported core is a well-formed area, and two reported protoclusters of
+    the same rule are further apart than that rule's cutoff, the shorter way round the ring — no chain
+    is ever reported in two pieces, wherever the origin lies.  (`within` is arbitrary here.) -/
+theorem reported_protoclusters_far_apart_ring (within : Lookup) (r : Rec) (hcirc : r.circular = true) (hL : 0 < r.len)
+    (rules : List RuleM)
+    (hrules : ∀ name rule, findRule rules name = .ok rule → 0 ≤ rule.cutoff ∧ rule.cutoff ≤ r.len)
+    (hgenes : ∀ g ∈ r.genes, RingIn r.len g.loc) (outs : List Out)
+    (h : detectProtoclusters within r rules = .ok outs) :
+    (∀ o ∈ outs, RingArea r.len o.pc.core) ∧
+    (outs.map (·.pc)).Pairwise (fun p q => p.rule = q.rule → ∀ rule, findRule rules p.rule = .ok rule →
+      FarApart r.len rule.cutoff p.core q.core) := by
+  simp only [detectProtoclusters, bind, Except.bind] at h
+  cases hs : detectStages within r rules with
+  | error e => simp [hs] at h
+  | ok s =>
+    simp only [hs, pure, Except.pure, Except.ok.injEq] at h
+    subst h
+    exact detectStages_ring within r hcirc hL rules hrules hgenes s hs
+
 /-- **The per-cutoff cache is transparent** (after the repair of D1): walking the rules of one gene
     with `info_by_range` gives exactly what recomputing the nearby genes for every rule gives, for
     every ruleset — any number of rules, any mixture and order of cutoffs. -/
@@ -180,6 +385,44 @@ theorem ancillary_within_cutoff (ni : NearInfo) (c : Int)
   refine ⟨hne, ?_, hd, hhas⟩
   simp only [envOf, Env.ofLocs, List.mem_map] at hg
   exact hg
+
+/-- **EXTENDERS: the admitted genes are determined by the walk rules**, and `Chains.specWalk` (what the
+    driver evaluates on the implementation's output) computes them: it satisfies `ExtWalk`, and any list
+    satisfying `ExtWalk` equals it. -/
+theorem extenders_walk_determined (c : Int) (dist : GeneInfo → GeneInfo → Int) (ext inCore : GeneInfo → Bool)
+    (ref : GeneInfo) (w : List GeneInfo) :
+    ExtWalk c dist ext inCore ref w (specWalk c dist ext inCore ref w) ∧
+    ∀ a, ExtWalk c dist ext inCore ref w a → a = specWalk c dist ext inCore ref w :=
+  ⟨specWalk_sound c dist ext inCore w ref, fun _ h => ExtWalk.unique h⟩
+
+/-- **EXTENDERS (linear record)** — "plus any genes admitted by the rule's EXTENDERS clause".  For every
+    linear record whose genes satisfy `GeneOK`, every protocluster with a single-span core, and every
+    rule whose EXTENDERS clause is in the documented grammar: `apply_extenders` succeeds on it; the genes
+    it joins to the core are exactly those the walk rules admit — on the low side starting from the
+    first gene inside the core over the genes before the core (nearest first), on the high side starting
+    from the last gene inside the core over the genes after it, a gene being admitted iff it satisfies
+    the clause by its documented meaning (`extOK`, C01 `sem` at the gene alone) and lies within the cutoff
+    (`≤`, set-of-bases distance) of the previously admitted gene / the starting gene, the walk ending at
+    the first gene further away; the new core is the smallest span covering the old core and the admitted
+    genes; and the protocluster is that core widened by the rule's neighbourhood, clipped at the record ends.
+    (`hfirst`/`hlast`/`hsub` are what C08 establishes for `get_cds_features_within_location`.) -/
+theorem extenders_linear (within : Lookup) (r : Rec) (hlin : r.circular = false) (rules : List RuleM)
+    (pc : PC) (rule : RuleM) (hrule : findRule rules pc.rule = .ok rule) (hn : 0 ≤ rule.nbhd)
+    (hext : ∀ c, rule.extenders = some c → c.WF = true)
+    (p : Part) (hcore : pc.core = .simple p) (h0 : 0 ≤ p.lo) (h1 : p.lo < p.hi) (h2 : p.hi ≤ r.len)
+    (hgenes : ∀ g ∈ r.genes, GeneOK r.len g.loc)
+    (first last : GeneInfo) (hfirst : (within pc.core false).head? = some first)
+    (hlast : (within pc.core false).getLast? = some last) (hsub : ∀ g ∈ within pc.core false, g ∈ r.genes) :
+    ∃ back forw q1 q2 doms,
+      ExtWalk rule.cutoff (fun a b => specDistFull 0 a.loc b.loc) (extOK rule)
+        (fun g => locationContainsOther pc.core g.loc) first (walkBack r pc.core) back ∧
+      (q1.lo, q1.hi) = hullIv (pc.core :: back.map (·.loc)) ∧
+      ExtWalk rule.cutoff (fun a b => specDistFull 0 a.loc b.loc) (extOK rule)
+        (fun g => locationContainsOther (.simple q1) g.loc) last (walkForward r pc.core) forw ∧
+      (q2.lo, q2.hi) = hullIv (Loc.simple q1 :: forw.map (·.loc)) ∧
+      extendCluster within r rules pc =
+        .ok (⟨rule.name, .simple q2, .simple ⟨max 0 (q2.lo - rule.nbhd), min (q2.hi + rule.nbhd) r.len, .fwd⟩⟩, doms) :=
+  extendCluster_line within r hlin rules pc rule hrule hn hext p hcore h0 h1 h2 hgenes first last hfirst hlast hsub
 
 /-- **Superiors: exact characterisation of the implementation.**  Whenever the redundancy test of a
     protocluster `pc` returns, it returns `true` exactly when, for one of the superiors of `pc`'s rule,
@@ -255,6 +498,42 @@ example : (match detectProtoclusters (withinSpec kfRec) kfRec kfRules with
     | .ok outs => outs.map (fun o => (o.pc.rule, o.pc.core, o.pc.loc, o.defs)) ==
         [("superior", Loc.simple ⟨110, 140, .fwd⟩, Loc.simple ⟨100, 150, .fwd⟩, [(1, ["s"])])]
     | .error _ => false) = true := by decide +kernel
+
+/-- the ring hypotheses are satisfiable and the chains non-trivial: ring of length 1000, genes at
+    [300,320) [340,360) [400,420), cutoff 25 (gaps 20 and 40) -/
+def ringRec : Rec := ⟨1000, true,
+  [⟨0, .simple ⟨300, 320, .fwd⟩, [("a", 0)], true⟩, ⟨1, .simple ⟨340, 360, .rev⟩, [("a", 0)], true⟩,
+   ⟨2, .simple ⟨400, 420, .fwd⟩, [("a", 0)], true⟩]⟩
+example : InnerArc ringRec.len 25 300 420 := ⟨by decide, by decide, by decide, by decide⟩
+example : ∀ g ∈ ringRec.genes, GeneIn ringRec.len 300 420 g.loc := by
+  intro g hg
+  simp only [ringRec, List.mem_cons, List.mem_nil_iff, or_false] at hg
+  rcases hg with rfl | rfl | rfl <;>
+    exact ⟨⟨by simp [Loc.parts], by simp [bridgesOrigin], by intro p hp; simp [Loc.parts] at hp; subst hp; simp [ringRec]⟩,
+      by simp [Loc.start], by simp [Loc.end]⟩
+example : (match findCores ringRec 25 (ringRec.genes.map (·.loc)) with
+    | .ok cores => cores.map (fun c => (c.start, c.end)) == [(300, 360), (400, 420)]
+    | .error _ => false) = true := by decide +kernel
+
+/-- EXTENDERS, non-trivially: anchor `a` at [3006,3008), extender genes `x` at [2005,2007) (999 bases
+    before the anchor) and `y` at [1003,1005) (1000 bases before `x`, 2001 before the anchor), cutoff 1000:
+    both are admitted because the reference moves to `x`; with cutoff 999 only `x` is (exactly the cutoff
+    away: the walk stops at `> cutoff`), with cutoff 998 neither -/
+def exRec : Rec := ⟨10014, false,
+  [⟨1, .simple ⟨1003, 1005, .fwd⟩, [("y", 0)], true⟩, ⟨2, .simple ⟨2005, 2007, .fwd⟩, [("x", 0)], true⟩,
+   ⟨4, .simple ⟨3006, 3008, .fwd⟩, [("a", 0)], true⟩]⟩
+def exRule (c : Int) : RuleM :=
+  ⟨"r0", c, 3000, .group false [.single false "a"], [], some (.cds false [.single false "x", .single false "y"])⟩
+example : (match detectProtoclusters (withinSpec exRec) exRec [exRule 1000] with
+    | .ok outs => outs.map (fun o => (o.pc.core, o.pc.loc)) == [(Loc.simple ⟨1003, 3008, .fwd⟩, Loc.simple ⟨0, 6008, .fwd⟩)]
+    | .error _ => false) = true := by decide +kernel
+example : (match detectProtoclusters (withinSpec exRec) exRec [exRule 999] with
+    | .ok outs => outs.map (fun o => (o.pc.core, o.pc.loc)) == [(Loc.simple ⟨2005, 3008, .fwd⟩, Loc.simple ⟨0, 6008, .fwd⟩)]
+    | .error _ => false) = true := by decide +kernel
+example : (match detectProtoclusters (withinSpec exRec) exRec [exRule 998] with
+    | .ok outs => outs.map (fun o => (o.pc.core, o.pc.loc)) == [(Loc.simple ⟨3006, 3008, .fwd⟩, Loc.simple ⟨6, 6008, .fwd⟩)]
+    | .error _ => false) = true := by decide +kernel
+example : extendedHull exRec (exRule 1000) (3006, 3008) = some (1003, 3008) := by decide +kernel
 
 /-- the hypotheses of `protoclusters_of_rule_linear` hold on it, and the chains are non-trivial:
     with cutoff 31 the three genes (gaps 30 and 10) are one chain, with cutoff 30 they are two -/
